@@ -268,3 +268,72 @@ func vLRUObserved(obsA, obsB int) {
 func H_C09_observed_len()       { vLRUObserved(0, -1) }
 func H_C09_observed_dump()      { vLRUObserved(1, -1) }
 func H_C09T_observed_len_dump() { vLRUObserved(0, 1) }
+
+// keys of several dynamic types, the nil interface included: nil is a key like any other
+type vGKV struct {
+	k interface{}
+	v int
+}
+
+func H_C09_hetero_keys() {
+	keys := []interface{}{nil, 0, "0", false}
+	c := vndChoice("cap", 3)
+	var log []vGKV
+	l := NewLRU(c)
+	l.SetDelCallBackFn(func(k, v interface{}) { log = append(log, vGKV{k, v.(int)}) })
+	var items []vGKV // most recent first
+	var want []vGKV  // expected callback log
+	find := func(k interface{}) int {
+		for i := range items {
+			if items[i].k == k {
+				return i
+			}
+		}
+		return -1
+	}
+	touch := func(i int) {
+		it := items[i]
+		copy(items[1:i+1], items[:i])
+		items[0] = it
+	}
+	for step := 0; step < 3; step++ {
+		k := keys[vndChoice("k"+vNum(step), len(keys))]
+		switch vndChoice("op"+vNum(step), 3) {
+		case 0:
+			v := 100 + step
+			l.Store(k, v)
+			if i := find(k); i >= 0 {
+				items[i].v = v
+				touch(i)
+			} else {
+				items = append([]vGKV{{k, v}}, items...)
+				if len(items) > c {
+					want = append(want, items[len(items)-1])
+					items = items[:len(items)-1]
+				}
+			}
+		case 1:
+			got, ok := l.Load(k)
+			i := find(k)
+			vAssert(ok == (i >= 0), "C09 mixed keys: a load hits exactly the live keys")
+			if ok && i >= 0 {
+				vAssert(got.(int) == items[i].v, "C09 mixed keys: value most recently stored")
+				touch(i)
+			}
+		case 2:
+			l.Delete(k)
+			if i := find(k); i >= 0 {
+				want = append(want, items[i])
+				items = append(items[:i:i], items[i+1:]...)
+			}
+		}
+		vAssert(l.Len() == len(items), "C09 mixed keys: Len = live entries, never above the capacity")
+	}
+	vAssert(len(log) == len(want), "C09 mixed keys: one callback per evicted or deleted entry")
+	if len(log) == len(want) {
+		for i := range log {
+			vAssert(log[i].k == want[i].k && log[i].v == want[i].v, "C09 mixed keys: callback key and value")
+		}
+	}
+	vReach("end")
+}
